@@ -205,7 +205,7 @@ def has_variant(tree):
 
 
 # --------------------------------------------------------------------------- transition schemes
-def add_scheme_S(spec, event='e', send_subset=False, eventless_twin=False):
+def add_scheme_S(spec, event='e', send_subset=False, eventless_twin=False, counter=False):
     """saturated: one transition per WF (source, target|internal) pair, guard G(tid, event)."""
     T = Tree(spec)
     trans = spec['transitions']
@@ -218,6 +218,13 @@ def add_scheme_S(spec, event='e', send_subset=False, eventless_twin=False):
                     act += "; send('i%d', v=%d)" % (tid, tid)
                 trans.append({'source': s, 'target': t, 'event': event, 'guard': 'G(%d, event)' % tid,
                               'action': act, 'priority': 0, 'tid': tid})
+    if counter:
+        spec['preamble'] = 'n = 0'
+        for tr in trans:
+            tr['action'] += '; n = n + 1'
+        for s in spec['states']:
+            if s.get('on_entry'):
+                s['on_entry'] += '; n = n + 1'
     if eventless_twin:
         for tr in list(trans):
             tid = len(trans)
